@@ -82,7 +82,7 @@ package didnuts
 //@ func (*ambassador).handleCreateDIDDocument
 //@   prop C09 C19
 //@   safety
-//@   assume-benign
+//@   modifies nothing
 //@   call (didstore.Store).Add #1 requires [new-did-is-the-thumbprint-of-the-embedded-signing-key]
 //@        !isNilIface(transaction.SigningKey())
 //@     && isNilIface(ret(call crypto.Thumbprint #1).1) && arg(call crypto.Thumbprint #1, 0) == transaction.SigningKey()
@@ -96,7 +96,7 @@ package didnuts
 //@ func (ambassador).findKeyByThumbprint
 //@   prop C09 C19
 //@   safety
-//@   assume-benign
+//@   modifies nothing
 //@   requires forall k int :: 0 <= k && k < len(didDocumentAuthKeys) ==> didDocumentAuthKeys[k].VerificationMethod != nil
 //@   ensures [found-key-has-that-thumbprint] isNilIface(result.1) && !isNilIface(result.0) ==>
 //@        did(call bytes.Equal #1) && ret(call bytes.Equal #1) == true && arg(call bytes.Equal #1, 0) == thumbPrint
@@ -168,7 +168,7 @@ package didnuts
 //@   prop C09 C19
 //@   safety
 //@   requires method != nil
-//@   assume-benign
+//@   modifies nothing
 //@   ensures [method-without-jwk-is-refused] method.PublicKeyJwk == nil ==> !isNilIface(result)
 //@   call jwk.AssignKeyID #1 requires [kid-member-discarded-first] isNilIface(ret(call (did.VerificationMethod).JWK #1).1)
 //@        && arg(0) == ret(call (did.VerificationMethod).JWK #1).0 && same(arg(call (did.VerificationMethod).JWK #1, 0), *method)
